@@ -702,6 +702,12 @@ class Interp:
             self.rebind(base, new, st)
             return
         self.event("mutate", stmt, st, how="setitem", target=base, index=idx, value=v, targetsrc=ast.unparse(target.value))
+        if base.kind == "arr" and isinstance(base.extra, tuple) and base.extra and base.extra[0] == "dyn" and v.kind in ("arr", "float"):
+            # the buffer was allocated with the dtype of caller data: anything but values of that very array
+            # (selections of it) is converted on assignment - an integer input truncates a computed float
+            src_dt = base.extra[1]
+            if self.api.dtype_base(v.term) != self.api.dtype_base(src_dt) and not (v.has_const and v.const == 0):
+                self.event("shape-conflict", stmt, st, what="precision-loss: a computed value is stored into a buffer that has the dtype of the caller's array (an integer input truncates it)", a=repr(src_dt)[:60], b=repr(v.term)[:60])
         # shape check: value must broadcast to the indexed region
         if base.kind == "arr":
             region = self.api.index_shape(self, base, idx, st, stmt)
